@@ -135,6 +135,8 @@ class Driver:
                 v.append("dict")
                 if n == "update" and self.name.startswith("str-keys"):
                     v.append("kw")
+                    if len(op["arg"]) >= 2:
+                        v.append("dict+kw")         # one call mixing a mapping and keyword items
             if n == "update":
                 v.append("tuple")
             return v
@@ -173,6 +175,9 @@ class Driver:
                 form = variant or "pairs"
                 if form == "kw":
                     c.update((), **{K(p["k"]): V(p["v"]) for p in op["arg"]})
+                elif form == "dict+kw":
+                    h = len(op["arg"]) // 2
+                    c.update({K(p["k"]): V(p["v"]) for p in op["arg"][:h]}, **{K(p["k"]): V(p["v"]) for p in op["arg"][h:]})
                 else:
                     c.update(self.arg(op["arg"], form, cfg))
                 v = []
